@@ -689,7 +689,8 @@ Record pwl_accepted (c : pwl_cfg) : Prop := {
   pa_kp_type : p_kp_type_ok c = true;
   pa_layer : p_layer c = true ->
       (p_missing_in c = true -> p_impute c = true) /\ (p_missing_out c = true -> p_impute c = true) /\
-      p_mono c <> None /\ (p_learned c = true -> p_convexity_is_none_spelling c = true)
+      p_mono c <> None /\ (p_learned c = true -> p_convexity_is_none_spelling c = true);
+  pa_layer_convexity : p_layer c = true -> p_convex c <> None
 }.
 
 Lemma accepts_pwl_sound c : accepts_pwl c = true -> pwl_accepted c.
@@ -706,12 +707,14 @@ Proof.
   - intros Hc. rewrite Hc in H3. cbn in H3. apply negb_true_iff, orb_false_iff in H3. destruct H3 as [X Y].
     split; intros Hn; apply truthy_oz_spec in Hn; congruence.
   - exact H4.
-  - intros Hl. rewrite Hl in H5. cbn in H5. rewrite !andb_true_iff in H5. destruct H5 as [[[X1 X2] X3] X4].
+  - intros Hl. rewrite Hl in H5. cbn in H5. rewrite !andb_true_iff in H5. destruct H5 as [[[[X1 X2] X3] X4] _].
     repeat split.
     + intros Hm. rewrite Hm in X1. cbn in X1. apply negb_true_iff, negb_false_iff in X1. exact X1.
     + intros Hm. rewrite Hm in X2. cbn in X2. apply negb_true_iff, negb_false_iff in X2. exact X2.
     + intros E. rewrite E in X3. discriminate.
     + intros Hle. rewrite Hle in X4. rewrite andb_true_r in X4. apply negb_true_iff, negb_false_iff in X4. exact X4.
+  - intros Hl. rewrite Hl in H5. cbn in H5. rewrite !andb_true_iff in H5. destruct H5 as [_ X5].
+    intros E. rewrite E in X5. discriminate.
 Qed.
 
 Lemma reject_pwl_too_few_keypoints c ks :
@@ -752,6 +755,10 @@ Proof.
   - contradiction.
   - specialize (X4 H). congruence.
 Qed.
+
+(* "'convexity' can't be None" (PWLCalibration.__init__ since /repo commit adb1223) *)
+Lemma reject_pwl_layer_convexity_none c : p_layer c = true -> p_convex c = None -> accepts_pwl c = false.
+Proof. intros Hl E. reject_with accepts_pwl_sound. exact (pa_layer_convexity c Hacc Hl E). Qed.
 
 (* ------------------------------------------------------------------------- *)
 (* 4. CategoricalCalibration                                                   *)
@@ -1288,3 +1295,105 @@ Qed.
 Lemma accepts_lattice_constraints_iff c :
   accepts_lattice_constraints c = true <-> lattice_constraints_accepted c.
 Proof. split; [apply accepts_lattice_constraints_sound|apply accepts_lattice_constraints_complete]. Qed.
+
+(* ------------------------------------------------------------------------- *)
+(* Non-positive sizes of the LAYERS (units, num_input_dims, num_buckets): the  *)
+(* add_weight call of build() - TensorFlow's ValueError for a negative         *)
+(* dimension - on top of the verify_hyperparameters decisions above.           *)
+(* ------------------------------------------------------------------------- *)
+Lemma accepts_lattice_layer_units_sound c u : accepts_lattice_layer_units c u = true ->
+  accepts_lattice_layer c = true /\ 0 <= u /\
+  (joint_covers_all (zlen (l_sizes c)) (l_junimod c) = true \/ 1 <= u).
+Proof.
+  unfold accepts_lattice_layer_units. rewrite !andb_true_iff, orb_true_iff, !Z.leb_le. tauto.
+Qed.
+Lemma lattice_layer_units_positive c u : 1 <= u -> accepts_lattice_layer_units c u = accepts_lattice_layer c.
+Proof.
+  intros H. unfold accepts_lattice_layer_units.
+  assert (E1 : (0 <=? u) = true) by (apply Z.leb_le; lia). assert (E2 : (1 <=? u) = true) by (apply Z.leb_le; lia).
+  rewrite E1, E2, orb_true_r, !andb_true_r. reflexivity.
+Qed.
+Lemma reject_lattice_layer_negative_units c u : u < 0 -> accepts_lattice_layer_units c u = false.
+Proof.
+  intros H. destruct (accepts_lattice_layer_units c u) eqn:E; [exfalso|reflexivity].
+  destruct (accepts_lattice_layer_units_sound c u E) as (_ & X & _). lia.
+Qed.
+Lemma reject_lattice_layer_zero_units c :
+  joint_covers_all (zlen (l_sizes c)) (l_junimod c) = false -> accepts_lattice_layer_units c 0 = false.
+Proof.
+  intros H. destruct (accepts_lattice_layer_units c 0) eqn:E; [exfalso|reflexivity].
+  destruct (accepts_lattice_layer_units_sound c 0 E) as (_ & _ & [X|X]); [congruence|lia].
+Qed.
+(* as is: with ONE joint unimodality over all features the fall-back Keras
+   initialiser builds a kernel with zero columns *)
+Lemma lattice_layer_zero_units_accepted : exists c, accepts_lattice_layer_units c 0 = true.
+Proof.
+  exists (mkL [3; 3] None None [] [] None None None (Some [([0; 1], true)]) None None true). reflexivity.
+Qed.
+
+Lemma accepts_linear_layer_sound c u : accepts_linear_layer c u = true ->
+  accepts_linear c = true /\ 0 <= u /\ (forall n, n_num_input_dims c = Some n -> 0 <= n).
+Proof.
+  unfold accepts_linear_layer. rewrite !andb_true_iff, Z.leb_le. intros [[H1 H2] H3]. repeat split; try assumption.
+  intros n E. rewrite E in H3. apply Z.leb_le, H3.
+Qed.
+Lemma linear_layer_sizes_nonnegative c u n :
+  0 <= u -> n_num_input_dims c = Some n -> 0 <= n -> accepts_linear_layer c u = accepts_linear c.
+Proof.
+  intros Hu E Hn. unfold accepts_linear_layer. rewrite E.
+  assert (E1 : (0 <=? u) = true) by (apply Z.leb_le; lia). assert (E2 : (0 <=? n) = true) by (apply Z.leb_le; lia).
+  rewrite E1, E2, !andb_true_r. reflexivity.
+Qed.
+Lemma reject_linear_layer_negative_units c u : u < 0 -> accepts_linear_layer c u = false.
+Proof.
+  intros H. destruct (accepts_linear_layer c u) eqn:E; [exfalso|reflexivity].
+  destruct (accepts_linear_layer_sound c u E) as (_ & X & _). lia.
+Qed.
+Lemma reject_linear_layer_negative_num_input_dims c u n :
+  n_num_input_dims c = Some n -> n < 0 -> accepts_linear_layer c u = false.
+Proof.
+  intros En H. destruct (accepts_linear_layer c u) eqn:E; [exfalso|reflexivity].
+  destruct (accepts_linear_layer_sound c u E) as (_ & _ & X). specialize (X n En). lia.
+Qed.
+
+Lemma accepts_pwl_layer_sound c u : accepts_pwl_layer c u = true ->
+  accepts_pwl c = true /\ (p_layer c = true -> 1 <= u).
+Proof.
+  unfold accepts_pwl_layer. rewrite andb_true_iff, orb_true_iff, negb_true_iff, Z.leb_le.
+  intros [H1 H2]. split; [exact H1|]. intros E. destruct H2 as [H2|H2]; [congruence|exact H2].
+Qed.
+Lemma pwl_layer_units_positive c u : 1 <= u -> accepts_pwl_layer c u = accepts_pwl c.
+Proof.
+  intros H. unfold accepts_pwl_layer. assert (E : (1 <=? u) = true) by (apply Z.leb_le; lia).
+  rewrite E, orb_true_r, andb_true_r. reflexivity.
+Qed.
+Lemma reject_pwl_layer_units_below_1 c u : p_layer c = true -> u < 1 -> accepts_pwl_layer c u = false.
+Proof.
+  intros Hl H. destruct (accepts_pwl_layer c u) eqn:E; [exfalso|reflexivity].
+  destruct (accepts_pwl_layer_sound c u E) as (_ & X). specialize (X Hl). lia.
+Qed.
+
+Lemma accepts_categorical_layer_sound c u : accepts_categorical_layer c u = true ->
+  accepts_categorical c = true /\ 0 <= u /\ (forall n, c_buckets c = Some n -> 0 <= n).
+Proof.
+  unfold accepts_categorical_layer. rewrite !andb_true_iff, Z.leb_le. intros [[H1 H2] H3]. repeat split; try assumption.
+  intros n E. rewrite E in H3. apply Z.leb_le, H3.
+Qed.
+Lemma categorical_layer_sizes_nonnegative c u n :
+  0 <= u -> c_buckets c = Some n -> 0 <= n -> accepts_categorical_layer c u = accepts_categorical c.
+Proof.
+  intros Hu E Hn. unfold accepts_categorical_layer. rewrite E.
+  assert (E1 : (0 <=? u) = true) by (apply Z.leb_le; lia). assert (E2 : (0 <=? n) = true) by (apply Z.leb_le; lia).
+  rewrite E1, E2, !andb_true_r. reflexivity.
+Qed.
+Lemma reject_categorical_layer_negative_units c u : u < 0 -> accepts_categorical_layer c u = false.
+Proof.
+  intros H. destruct (accepts_categorical_layer c u) eqn:E; [exfalso|reflexivity].
+  destruct (accepts_categorical_layer_sound c u E) as (_ & X & _). lia.
+Qed.
+Lemma reject_categorical_layer_negative_num_buckets c u n :
+  c_buckets c = Some n -> n < 0 -> accepts_categorical_layer c u = false.
+Proof.
+  intros En H. destruct (accepts_categorical_layer c u) eqn:E; [exfalso|reflexivity].
+  destruct (accepts_categorical_layer_sound c u E) as (_ & _ & X). specialize (X n En). lia.
+Qed.
